@@ -15,6 +15,20 @@ Theorem C09_bijection : forall ls d, parse_file ls = Ok d ->
 Proof. exact parse_file_records. Qed.
 Print Assumptions C09_bijection.
 
+(* the same statement for the file as a text: the lines are those Python's text-mode iteration yields
+   (universal newlines: "\n", "\r\n" and a lone "\r" end a line; nothing else does) *)
+Theorem C09_bijection_text : forall t d, parse_text t = Ok d ->
+  (forall sec, In sec canonical_sections ->
+     Forall2 Corresponds (recs_of (section_of d sec)) (in_section sec (spec_records (file_lines t)))) /\
+  db_len d = Z.of_nat (length (spec_records (file_lines t))) /\
+  length (spec_records (file_lines t)) = length (filter is_sig_line (file_lines t)).
+Proof. exact parse_text_records. Qed.
+Print Assumptions C09_bijection_text.
+Theorem C09_file_lines : forall ls, Forall nl_free ls ->
+  file_lines (concat (map (fun l => l ++ [10]) ls)) = ls.
+Proof. exact file_lines_join. Qed.
+Print Assumptions C09_file_lines.
+
 (* what a structured TCP signature denotes: every accepted text lies in the documented ranges *)
 Theorem C09_tcp_sig_ranges : forall t s, parse_tcp_sig t = Ok s ->
   wf_sig s /\ Forall (fun k => 0 <= k <= 255) (s_layout s) /\
